@@ -336,6 +336,45 @@ int main (int argc, char** argv)
     const double st[][4] = { {1,0.3,-0.2,0.4}, {2,1,1,-1} };
     config c; c.n = 1; c.lag = 2; c.k = DISJOINT; c.f = 0.5; for (int i=0; i<4; i++) { c.sa[i] = st[0][i]; c.sb[i] = st[1][i]; }
     c.mk = BOXCAR; c.dA = 0.5; c.dB = 0.25; c.width = 3; compare (c, &gasdev, false, 1e-8); }, 1);
+  // sizes beyond the grid at which predictions and generators are tied symbolically (n <= 3 / 4): the closed forms of
+  // DualModel evaluated in binary64 against the code, on stub modes with pseudo-random statistics and fields
+  fn ("dual_large_plain", [&] {
+    uint64_t st = 7; auto rnd = [&st] () { st = st * 6364136223846793005ULL + 1442695040888963407ULL; return double ((st >> 33) % 2000001) / 1e6 - 1.0; };
+    auto covn = [] (const stub_mode* m, unsigned n) { double sum = 0; for (unsigned i=0; i<n; i++) for (unsigned j=0; j<n; j++) { unsigned l = i > j ? i - j : j - i; sum += l ? m->x[l] : m->c; } return n ? sum / (double (n) * n) : 0.0; };
+    auto xcovn = [] (const stub_mode* m, unsigned n, unsigned L) { double sum = 0; for (unsigned i=0; i<n; i++) for (unsigned j=0; j<n; j++) { long l = long (L*n + i) - long (j); if (l < 0) l = -l; sum += m->x[l]; } return sum / (double (n) * n); };
+    for (unsigned n : { 4u, 5u, 8u, 17u, 50u, 128u }) for (double f : { 0.0, 0.1, 0.37, 0.5, 0.93, 1.0 }) for (int kd=0; kd<3; kd++) {
+      stub_mode* a = new stub_mode (1, 4, 1); stub_mode* b = new stub_mode (2, 1, 3);
+      for (stub_mode* m : { a, b }) { m->mu = Stokes<double> (2 + rnd (), rnd (), rnd (), rnd ()); m->c = 1 + rnd (); for (unsigned l=0; l<=2*n+2; l++) m->x.push_back (rnd () / (1.0 + l));
+        for (unsigned k=0; k<n+2; k++) m->fields.push_back (Spinor<double> (std::complex<double> (rnd (), rnd ()), std::complex<double> (rnd (), rnd ()))); }
+      double ic = 0.3 * rnd (); combination* s = 0; const char* kn = kd == 0 ? "superposed" : (kd == 1 ? "composite" : "disjoint");
+      if (kd == 0) s = new superposed; else if (kd == 1) s = new composite (f); else s = new disjoint (f);
+      s->sample_size = n; delete s->A; delete s->B; s->A = a; s->B = b; s->set_intensity_covariance (ic);
+      sample* sp = s; Vector<4,double> pm = sp->get_mean (); Matrix<4,4,double> pc = sp->get_covariance (), px = sp->get_crosscovariance (1);
+      unsigned na = unsigned (f * n), nb = n - na; double fa = na / double (n), fb = nb / double (n); char what[200];
+      for (unsigned i=0; i<4; i++) { double wm = kd == 0 ? a->mu[i] + b->mu[i] : (kd == 1 ? (na * a->mu[i] + nb * b->mu[i]) / n : f * a->mu[i] + (1 - f) * b->mu[i]);
+        snprintf (what, 200, "%s n = %u f = %g: predicted mean", kn, n, f); expect (what, pm[i], wm, 1e-12);
+        for (unsigned j=0; j<4; j++) { double wc, wx; double ab = a->mu[i]*b->mu[j], ba = a->mu[j]*b->mu[i];
+          if (kd == 0) { double mij = ab - 0.5 * (i == j ? (i == 0 ? 1.0 : -1.0) : 0.0) * (a->mu[0]*b->mu[0] - a->mu[1]*b->mu[1] - a->mu[2]*b->mu[2] - a->mu[3]*b->mu[3]);
+                         double mji = ba - 0.5 * (i == j ? (i == 0 ? 1.0 : -1.0) : 0.0) * (a->mu[0]*b->mu[0] - a->mu[1]*b->mu[1] - a->mu[2]*b->mu[2] - a->mu[3]*b->mu[3]);
+                         wc = a->P[i][j]*covn (a, n) + b->P[i][j]*covn (b, n) + (1 + ic) / n * (mij + mji) + ic / n * (ab + ba);
+                         wx = a->P[i][j]*xcovn (a, n, 1) + b->P[i][j]*xcovn (b, n, 1); }
+          else if (kd == 1) { wc = fa*fa*a->P[i][j]*covn (a, na) + fb*fb*b->P[i][j]*covn (b, nb) + std::min (fa, fb) * ic / n * (ab + ba); wx = px[i][j]; /* lagged composite: known finding */ }
+          else { wc = f*a->P[i][j]*covn (a, n) + (1 - f)*b->P[i][j]*covn (b, n) + f*(1 - f)*(a->mu[i] - b->mu[i])*(a->mu[j] - b->mu[j]);
+                 wx = f*f*a->P[i][j]*xcovn (a, n, 1) + (1 - f)*(1 - f)*b->P[i][j]*xcovn (b, n, 1); }
+          snprintf (what, 200, "%s n = %u f = %g: predicted covariance", kn, n, f); expect (what, pc[i][j], wc, 1e-12);
+          snprintf (what, 200, "%s n = %u f = %g: predicted lag-1 cross-covariance", kn, n, f); expect (what, px[i][j], wx, 1e-12); } }
+      // the generator: instances consumed per mode and the sample itself
+      random_script = 0.0; Stokes<double> got = sp->get_Stokes (); Stokes<double> want; unsigned wa, wb;
+      if (kd == 0) { wa = wb = n; for (unsigned k=0; k<n; k++) { Vector<4,double> t; compute_stokes (t, a->fields[k] + b->fields[k]); for (unsigned i=0; i<4; i++) want[i] += t[i]; } }
+      else if (kd == 1) { wa = wb = std::max (na, nb); for (unsigned k=0; k<na; k++) { Vector<4,double> t; compute_stokes (t, a->fields[k]); for (unsigned i=0; i<4; i++) want[i] += t[i]; }
+                          for (unsigned k=0; k<nb; k++) { Vector<4,double> t; compute_stokes (t, b->fields[k]); for (unsigned i=0; i<4; i++) want[i] += t[i]; } }
+      else { bool selA = 0.0 < f; wa = selA ? n : 0; wb = selA ? 0 : n; stub_mode* e = selA ? a : b;
+             for (unsigned k=0; k<n; k++) { Vector<4,double> t; compute_stokes (t, e->fields[k]); for (unsigned i=0; i<4; i++) want[i] += t[i]; } }
+      snprintf (what, 200, "%s n = %u f = %g: instances of A consumed", kn, n, f); expect (what, a->calls, wa);
+      snprintf (what, 200, "%s n = %u f = %g: instances of B consumed", kn, n, f); expect (what, b->calls, wb);
+      snprintf (what, 200, "%s n = %u f = %g: the sample is the mean of the instances the prediction assumes", kn, n, f);
+      for (unsigned i=0; i<4; i++) expect (what, got[i], want[i] / double (n), 1e-12);
+    } }, 1);
   // coherent: the mean for 100% polarized modes at every coherence, the covariance at zero coherence
   fn ("coherent_exact_plain", [&] {
     const double st[][4] = { {1,0.6,0,0.8}, {1,1,0,0}, {3,-1,2,2}, {2,0,-2,0}, {1,0,0,-1} };
